@@ -52,6 +52,15 @@ def run_all(tier):
             samples.append(dict(part="env", example=res[-1]))
         elif part == "exit":
             for c in res:
+                if c["how"].startswith("concurrent-"):
+                    exp = c["arg"] if c["how"].endswith("exit") else -c["arg"]
+                    bad = {k: v for k, v in c["seen"].items() if v not in (None, exp)}
+                    if c["exitcode"] != exp or bad:
+                        viol.append((f"C18:R:exit:concurrent-reap:{c['how']}",
+                                     f"two threads joining the same child ({c['how']} {c['arg']}): "
+                                     f"final exitcode {c['exitcode']}, seen {c['seen']}, expected {exp}",
+                                     [c["how"], c["arg"]]))
+                    continue
                 if c["how"] == "exit":
                     exp = c["arg"]
                 elif c["how"] == "signal":
